@@ -17,3 +17,11 @@ pub fn c17_secret_key_decoders_total(bytes: &[u8], arr: &[u8; 32])
     let _ = SecretKeyEnum::from_be_bytes(bytes);
     let _ = SecretKeyEnum::from_le_bytes(bytes);
 }
+/// signcryption: validity check and both decryption paths return for every ciphertext (empty,
+/// one-byte and arbitrary payloads, any length prefix)
+pub fn c17_signcrypt_total(ct: &SignCryptCiphertext, sk: &SecretKey, dk: &SignCryptDecryptionKey)
+{
+    let _ = ct.is_valid();
+    let _ = ct.decrypt(sk);
+    let _ = dk.decrypt(ct);
+}
